@@ -26,6 +26,8 @@ A world (JSON-serialisable):
                rep  row = [est_vol, start, end|None]
   extras     {"<program>|<sim>": [suffix, ...]}   other files written next to the CSVs (plots, ...)
   logs       bool   a `Logs` directory and parameters.yaml exist in the output folder
+  summary_files  optional {"ts": bool, "emis": bool, "cost": bool}   the "Summary Files" switches (default all on)
+  multiprocessing optional bool   run the batch loop of _run_simulation_multiprocessing (default: the debug loop)
 """
 from __future__ import annotations
 
@@ -88,15 +90,18 @@ def kg_to_mmbtu():
     return cc.KG_TO_MMBTU
 
 
-def output_config(cost=True):
-    """the repository's default output parameters (all summary statistics on)"""
+def output_config(cost=True, ts=True, emis=True):
+    """the repository's default output parameters (all summary statistics on) with the three
+    "Summary Files" switches set as asked"""
     import yaml
 
     with open(os.path.join(shim.REPO_SRC, "default_parameters", "outputs_default.yml")) as fh:
         cfg = yaml.safe_load(fh)
-    cfg[ofc.OutputConfigCategories.SUMMARY_OUTPUTS][
-        ofc.OutputConfigCategories.SummaryOutputCatageories.SUMMARY_FILES][
-        Output_Files.SummaryFileNames.COST_SUMMARY] = bool(cost)
+    sf = cfg[ofc.OutputConfigCategories.SUMMARY_OUTPUTS][
+        ofc.OutputConfigCategories.SummaryOutputCatageories.SUMMARY_FILES]
+    sf[Output_Files.SummaryFileNames.COST_SUMMARY] = bool(cost)
+    sf[Output_Files.SummaryFileNames.TS_SUMMARY] = bool(ts)
+    sf[Output_Files.SummaryFileNames.EMIS_SUMMARY] = bool(emis)
     return cfg
 
 
@@ -124,6 +129,19 @@ def write_csv(path, header, rows):
         w.writerow(header)
         for r in rows:
             w.writerow(r)
+
+
+def planned_files(world, program, sim):
+    """[(kind, name)] of the files write_sim_files writes for (program, sim), in writing order"""
+    f = world["files"]["%s|%d" % (program, sim)]
+    out = [("ts", sim_file_name(program, sim, SUFFIX["ts"])), ("emis", sim_file_name(program, sim, SUFFIX["emis"]))]
+    if f.get("est") is not None:
+        out.append(("est", sim_file_name(program, sim, SUFFIX["est"])))
+    if f.get("rep") is not None:
+        out.append(("rep", sim_file_name(program, sim, SUFFIX["rep"])))
+    for suf in world.get("extras", {}).get("%s|%d" % (program, sim), []):
+        out.append(("other", sim_file_name(program, sim, suf)))
+    return out
 
 
 def write_sim_files(out_dir, world, program, sim):
@@ -188,6 +206,8 @@ def permuted_scandir(rng, log, root, mode="shuffle"):
     real = os.scandir
 
     def scandir(path="."):
+        if isinstance(path, int):  # directory file descriptor (shutil.rmtree of unrelated temp dirs)
+            return real(path)
         with real(path) as it:
             entries = list(it)
         p = os.path.abspath(os.fspath(path))
@@ -235,27 +255,37 @@ class _StubManager:
         self.base_program = world["baseline"]
         self.summary_stats_manager = manager
         self.summary_visualization_manager = _NoVis()
+        self.sim_params = {pdc.Sim_Setting_Params.PROCESS: 2}
         self._world = world
         self._out = out_dir
         self._hook = hook
 
     def _setup_programs(self, simulation_number, lock=None):
-        return [(self._out, self._world, p, simulation_number, self._hook) for p in self._world["programs"]]
+        # the write events are recorded here (parent process) so that both loops log alike
+        for p in self._world["programs"]:
+            self._hook("write", p, simulation_number, planned_files(self._world, p, simulation_number))
+        return [(str(self._out), self._world, p, simulation_number) for p in self._world["programs"]]
 
     def _run_simulations_debug(self, sim_counts):
         return SM.SimulationManager._run_simulations_debug(self, sim_counts)
 
+    def _run_simulation_multiprocessing(self, sim_counts):
+        return SM.SimulationManager._run_simulation_multiprocessing(self, sim_counts)
 
-def _fake_simulate(out_dir, world, program, sim, hook):
+
+def _fake_simulate(out_dir, world, program, sim):
     written = write_sim_files(out_dir, world, program, sim)
-    hook("write", program, sim, written)
+    assert written == planned_files(world, program, sim)
 
 
-def run_world(world, rng, mode="shuffle", cost=True):
+def run_world(world, rng, mode="shuffle"):
     """returns dict(events=[...], batches=[...], final={ts, emis, cost}, error=None|str)
     events, in order:  ("write", program, sim, [(kind, name), ...])
                        ("gen", clear_flag, [(path, [names...]), ...] scandir log of that call,
-                        snapshot {ts: rows, emis: rows, dirs: {program: sorted names}})"""
+                        snapshot {ts: rows, emis: rows, dirs: {program: sorted names}})
+                       ("gen-crash", clear_flag, exception name)  the call raised; the run stops
+    error: "gen:<Exception>" when gen_summary_outputs raised, "cost:<Exception>" when the cost
+    summary raised"""
     tmp = tempfile.mkdtemp(prefix="c14_")
     out = Path(tmp) / "out"
     os.makedirs(out)
@@ -269,7 +299,10 @@ def run_world(world, rng, mode="shuffle", cost=True):
         programs = {p: {pdc.Program_Params.ECONOMICS: {pdc.Program_Params.GWP: world["econ"][p][0],
                                                        pdc.Program_Params.NATGAS: world["econ"][p][1]}}
                     for p in world["programs"]}
-        manager = SummaryOutputManager(out, output_config(cost), list(world["years"]), programs)
+        sw = world.get("summary_files") or {}
+        manager = SummaryOutputManager(
+            out, output_config(sw.get("cost", True), sw.get("ts", True), sw.get("emis", True)),
+            list(world["years"]), programs)
 
         def hook(*ev):
             events.append(tuple(ev))
@@ -288,7 +321,11 @@ def run_world(world, rng, mode="shuffle", cost=True):
 
         def gen(clear_outputs=False):
             start = len(log)
-            real_gen(clear_outputs)
+            try:
+                real_gen(clear_outputs)
+            except Exception as e:
+                events.append(("gen-crash", bool(clear_outputs), type(e).__name__))
+                raise
             calls = [(os.path.relpath(p, str(out)), names) for (p, names) in log[start:]]
             events.append(("gen", bool(clear_outputs), calls, snapshot()))
 
@@ -301,11 +338,17 @@ def run_world(world, rng, mode="shuffle", cost=True):
 
         try:
             with permuted_scandir(rng, log, str(out), mode), contextlib.redirect_stdout(io.StringIO()):
-                SM.SimulationManager.run_simulations(stub, True)
                 try:
-                    SM.SimulationManager.generate_summary_results(stub)
-                except Exception as e:  # the cost summary of a degenerate world
-                    error = "cost:%s" % type(e).__name__
+                    SM.SimulationManager.run_simulations(stub, not world.get("multiprocessing", False))
+                except Exception as e:
+                    if not (events and events[-1][0] == "gen-crash"):
+                        raise
+                    error = "gen:%s" % type(e).__name__
+                if error is None:
+                    try:
+                        SM.SimulationManager.generate_summary_results(stub)
+                    except Exception as e:  # the cost summary of a degenerate world
+                        error = "cost:%s" % type(e).__name__
         finally:
             SM.simulate = saved_sim
         final = snapshot()
